@@ -92,14 +92,20 @@ PROPS = {
     "C02": {
         "level": "proof",
         "lean_modules": ["SqlizeModel.Props.C02"],
-        "theorems": ["Sqlize.C02.columns", "Sqlize.C02.up_down_identity", "Sqlize.Abs.emitDown_correct", "Sqlize.C02.printed_columns", "Sqlize.walkCols_down_refines", "Sqlize.C02.diffed_columns", "Sqlize.C02.columns_from_scripts"],
+        "theorems": ["Sqlize.C02.columns", "Sqlize.C02.up_down_identity", "Sqlize.Abs.emitDown_correct", "Sqlize.C02.printed_columns", "Sqlize.walkCols_down_refines", "Sqlize.C02.diffed_columns", "Sqlize.C02.columns_from_scripts",
+                     "Sqlize.C02.indexes_and_keys_from_scripts", "Sqlize.Abs.Idx.emitDown_correct", "Sqlize.Abs.Idx.emitDownKeep_correct",
+                     "Sqlize.Table.walkIdx_refines_down", "Sqlize.Table.walkFk_refines_down"],
         "suites": [{"name": "pair"}],
         "corr_points": ["load-old", "load-new", "state-old", "state-new", "Diff", "state-diff", "StringUp", "StringDown"],
         "rule": PAIR_RULE,
         "trusted_base": COMMON_TB + PAIR_TB,
         "assumptions": PAIR_ASSUME,
         "explanation": "Proved for all inputs: the down walk restores the old column order exactly (Sqlize.C02.columns) and up-then-down is the "
-                       "identity on the column list. Remaining parts of Sqlize.C02.Statement_partial are decided by correspondence + Spec.c02 on the Go output.",
+                       "identity on the column list; end to end from two scripts through the MySQL reader model, Migration.Diff and the down walks: the column "
+                       "statements restore the reference engine's old column order (columns_from_scripts), the CREATE/DROP INDEX statements turn its new index "
+                       "list back into the old one up to order (a redefined index is re-created as the old side defines it), the foreign-key statements its new "
+                       "key list into the old one unless a key is redefined in place (indexes_and_keys_from_scripts). Remaining parts of "
+                       "Sqlize.C02.Statement_partial (column attributes, primary key, drop suppression, other dialects) are decided by correspondence + Spec.c02 on the Go output.",
     },
     "C03": {
         "level": "proof",
